@@ -145,9 +145,25 @@ def snapshot(root):
     return files, dirs
 
 
+_iso_ctr = [0]
+_TZS = ["UTC", "EST5", "IST-5:30", "UTC", "NZST-12NZDT,M9.5.0,M4.1.0/3"]
+
+
 def iso(us):
+    """a time of the command line: 'Z', no designator (documented to mean UTC whatever the local zone
+    of the process is) or an explicit non-zero offset, in rotation; the process zone rotates too"""
+    import time
     dt = L.EPOCH + datetime.timedelta(microseconds=us)
-    return dt.strftime("%Y-%m-%dT%H:%M:%S.%f") + "Z"
+    _iso_ctr[0] += 1
+    os.environ["TZ"] = _TZS[(_iso_ctr[0] // 3) % len(_TZS)]
+    time.tzset()
+    form = _iso_ctr[0] % 3
+    if form == 0:
+        return dt.strftime("%Y-%m-%dT%H:%M:%S.%f") + "Z"
+    if form == 1:
+        return dt.strftime("%Y-%m-%dT%H:%M:%S.%f")
+    z = datetime.timezone(datetime.timedelta(hours=5, minutes=30))
+    return dt.astimezone(z).strftime("%Y-%m-%dT%H:%M:%S.%f") + "+05:30"
 
 
 def dec_stores(row):
